@@ -8,7 +8,8 @@
      capacity, maps (insert / delete / len / read of a missing key / nil map), strings as byte
      sequences (index, slice, len, range by UTF-8 decoding, lib/Utf8.tla), `any` with type assertion,
      and the run-time faults index out of range, slice bounds out of range, assignment to entry in
-     nil map, nil pointer dereference, failed type assertion - as panics with Go's message.
+     nil map, nil pointer dereference, failed type assertion - as panics with Go's message,
+     function calls as frames with defer / panic(v) / recover() (see "frames" below).
 
    A program is [nv |-> number of variables, body |-> block]; a block is a sequence of statements;
    statements and expressions are records tagged by the field s / e (see ExecStmt / Eval).  Every
@@ -16,7 +17,15 @@
    cells.  Values: integers, booleans, byte sequences (strings), integer sequences (arrays, structs),
    slices [a, off, len, cap], map / pointer cell numbers (0 = nil), closures [body, env],
    interface values [dyn, v].
-   Observable: the printed lines (sequences of tokens), the final outcome and the panic message. *)
+   Observable: the printed lines (sequences of tokens) - which include every value obtained from
+   recover() that the program prints -, the final outcome and the message of the panic that ends the
+   program (the newest one when panics were raised while panicking).
+
+   State: heap, out, and the goroutine's panic bookkeeping: dfr = the closures deferred by the
+   current frame, pst = the panics in progress whose deferred call is on the stack (oldest first,
+   [pay, rec]: payload and "recover() was called for it"), fr = 0 or the position in pst of the panic
+   that is running the current frame as a deferred call, lp = payload of the panic raised last,
+   funcs = the bodies of the top-level functions. *)
 EXTENDS Integers, Sequences, Utf8, MiniGoText
 
 TokI(n) == [k |-> "i", n |-> n, s |-> <<>>]
@@ -31,7 +40,10 @@ MsgIndex(i, n) == IF i < 0 THEN MgtIdxPre \o MgDec(i) \o <<93>> ELSE MgtIdxPre \
 MsgSliceCap(h, c) == MgtSlicePreColon \o MgDec(h) \o MgtWithCapacity \o MgDec(c)
 MsgSliceLen(h, n) == MgtSlicePreColon \o MgDec(h) \o MgtWithLength \o MgDec(n)
 MsgSliceLoHi(lo, hi) == MgtSlicePre \o MgDec(lo) \o <<58>> \o MgDec(hi) \o <<93>>
-MsgAssert(dyn, want) == MgtIfaceIs \o (IF dyn = "int" THEN MgtInt ELSE MgtString) \o MgtNot \o (IF want = "int" THEN MgtInt ELSE MgtString)
+\* the defined types of the generated programs are main.B (a bool type) and main.I (an int type)
+MgtNamed(t) == MgtMainDot \o (CASE t = "B" -> <<66>> [] t = "I" -> <<73>> [] OTHER -> <<63>>)
+MgTyName(t) == CASE t = "int" -> MgtInt [] t = "string" -> MgtString [] t = "nil" -> MgtNil [] t = "bool" -> MgtBool [] OTHER -> MgtNamed(t)
+MsgAssert(dyn, want) == MgtIfaceIs \o MgTyName(dyn) \o MgtNot \o MgTyName(want)
 
 \* Go's integer operators on small values (no overflow arises: the generator bounds every value)
 MgArith(op, a, b) == CASE op = "+" -> a + b [] op = "-" -> a - b [] op = "*" -> a * b
@@ -47,17 +59,59 @@ MgMapDel(m, k) == SelectSeq(m, LAMBDA kv : kv[1] # k)
 
 MgAlloc(st, v) == [st EXCEPT !.heap = Append(@, v)]          \* the new cell is Len(heap)
 R(v, st) == [v |-> v, st |-> st, p |-> <<>>]                  \* expression result
-RP(m, st) == [v |-> 0, st |-> st, p |-> m]                    \* expression panicked with message m
+PayRt == [k |-> "rt", v |-> 0]                                \* payload of a run-time error (a runtime.Error value)
+PayInt(n) == [k |-> "int", v |-> n]                           \* payload of panic(n)
+PayNone == [k |-> "none", v |-> 0]
+RP(m, st) == [v |-> 0, st |-> [st EXCEPT !.lp = PayRt], p |-> m]   \* the expression raises a run-time panic with message m
+RPP(m, st) == [v |-> 0, st |-> st, p |-> m]                   \* a panic raised further in (st.lp is its payload) passes through
 MgSig(k, l, v, m) == [k |-> k, l |-> l, v |-> v, m |-> m]
 SNext(env, st) == [sig |-> MgSig("next", "", 0, <<>>), env |-> env, st |-> st]
-SPanic(m, env, st) == [sig |-> MgSig("panic", "", 0, m), env |-> env, st |-> st]
+SPanic(m, env, st) == [sig |-> MgSig("panic", "", 0, m), env |-> env, st |-> st]          \* a panic of a sub-expression passes through
+SRaise(m, env, st) == [sig |-> MgSig("panic", "", 0, m), env |-> env, st |-> [st EXCEPT !.lp = PayRt]]   \* the statement raises a run-time panic
 MgLabelAt(b, l) == LET hits == {j \in 1..Len(b) : b[j].s = "label" /\ b[j].name = l} IN
                    IF hits = {} THEN 0 ELSE CHOOSE j \in hits : TRUE
 MgMin(S) == CHOOSE m \in S : \A o \in S : m <= o
 MgSliceElems(st, sl) == [j \in 1..sl.len |-> st.heap[sl.a][sl.off + j]]
 
 RECURSIVE Eval(_, _, _), EvalList(_, _, _, _, _), ExecBlock(_, _, _, _), ExecStmt(_, _, _),
-          ForIter(_, _, _), RangeIter(_, _, _, _, _), SwitchRun(_, _, _, _)
+          ForIter(_, _, _), RangeIter(_, _, _, _, _), SwitchRun(_, _, _, _), CallFrame(_, _, _, _), RunDefers(_, _, _, _)
+
+\* ---------------------------------------------------------------------------- frames: defer, panic, recover
+(* Go specification, "Defer statements", "Handling panics", "Run-time panics", with gc as the reference where the
+   text leaves room:
+   - a function's deferred calls run, last deferred first, when the function returns or panics;
+   - panic(v) (or a run-time error) stops the function, runs its deferred calls, then continues in the caller as
+     if the call had panicked, and so on up to main: the program dies with the panic's message;
+   - recover() returns the value of the current panic and stops the panicking sequence iff it is called directly
+     by a deferred function that the panicking sequence is running (not by a function that the deferred function
+     calls, not by a deferred function run by an ordinary return) and that panic was not recovered yet; otherwise
+     it returns nil.  When the deferred function that recovered returns, the remaining deferred calls of the
+     panicking function run with no panic in progress and that function returns normally to its caller, with
+     the result values it has at that moment (zero when it never executed a return);
+   - a panic raised while a deferred call runs during panicking replaces the earlier panic once it leaves that
+     deferred call: the remaining deferred calls see only the new one, recovering the new one ends both.
+   status = [p |-> panicking?, m |-> message, pay |-> payload]. *)
+MgNoPanic == [p |-> FALSE, m |-> <<>>, pay |-> PayNone]
+\* call closure clo in a new frame; fr / pst: see the state description (pst already has the entry of the panic that
+\* runs this frame as a deferred call when fr > 0).  The caller's dfr, fr and pst are restored in the result.
+CallFrame(clo, fr, pst, st) ==
+  LET rb == ExecBlock(clo.body, 1, clo.env, [st EXCEPT !.dfr = <<>>, !.fr = fr, !.pst = pst])
+      status == IF rb.sig.k = "panic" THEN [p |-> TRUE, m |-> rb.sig.m, pay |-> rb.st.lp] ELSE MgNoPanic
+      rd == RunDefers(rb.st.dfr, Len(rb.st.dfr), status, rb.st) IN
+  [p |-> rd.status.p, m |-> rd.status.m,
+   v |-> IF rb.sig.k = "return" /\ ~rd.status.p THEN rb.sig.v ELSE 0,
+   recd |-> (fr > 0 /\ rd.st.pst[fr].rec),
+   stray |-> rb.sig.k \notin {"next", "return", "panic"},
+   st |-> [rd.st EXCEPT !.dfr = st.dfr, !.fr = st.fr, !.pst = st.pst, !.lp = IF rd.status.p THEN rd.status.pay ELSE @]]
+\* run the deferred closures ds[i], ds[i-1], ..., ds[1] of the frame whose state is st (st.pst = the frame's own stack)
+RunDefers(ds, i, status, st) ==
+  IF i = 0 THEN [status |-> status, st |-> st]
+  ELSE LET pst1 == IF status.p THEN Append(st.pst, [pay |-> status.pay, rec |-> FALSE]) ELSE st.pst
+           r == CallFrame(ds[i], IF status.p THEN Len(pst1) ELSE 0, pst1, st)
+           status2 == IF r.p THEN [p |-> TRUE, m |-> r.m, pay |-> r.st.lp]             \* a new panic replaces the current one
+                      ELSE IF status.p /\ r.recd THEN MgNoPanic                        \* recovered: no panic in progress
+                      ELSE status IN
+       RunDefers(ds, i - 1, status2, r.st)
 
 \* ---------------------------------------------------------------------------- expressions
 Eval(e, env, st) ==
@@ -121,8 +175,15 @@ Eval(e, env, st) ==
     [] e.e = "clo" -> R([body |-> e.body, env |-> env], st)
     [] e.e = "call" ->
          LET rf == Eval(e.f, env, st) IN IF rf.p # <<>> THEN rf ELSE
-         LET r == ExecBlock(rf.v.body, 1, rf.v.env, rf.st) IN
-         IF r.sig.k = "panic" THEN RP(r.sig.m, r.st) ELSE R(r.sig.v, r.st)
+         LET r == CallFrame(rf.v, 0, rf.st.pst, rf.st) IN
+         IF r.p THEN RPP(r.m, r.st) ELSE R(r.v, r.st)
+    [] e.e = "fn" -> R([body |-> st.funcs[e.i], env |-> st.fenv], st)      \* a top-level function (captures nothing)
+    [] e.e = "recover" ->
+         IF st.fr > 0 /\ st.fr = Len(st.pst) /\ ~st.pst[st.fr].rec
+         THEN LET pay == st.pst[st.fr].pay IN
+              R([dyn |-> IF pay.k = "int" THEN "int" ELSE "error", v |-> pay.v], [st EXCEPT !.pst[st.fr].rec = TRUE])
+         ELSE R([dyn |-> "nil", v |-> 0], st)
+    [] e.e = "isnil" -> LET ra == Eval(e.a, env, st) IN IF ra.p # <<>> THEN ra ELSE R(ra.v.dyn = "nil", ra.st)   \* a == nil on an interface value
     [] e.e = "box" -> LET ra == Eval(e.a, env, st) IN IF ra.p # <<>> THEN ra ELSE R([dyn |-> e.dyn, v |-> ra.v], ra.st)
     [] e.e = "assert" -> LET ra == Eval(e.a, env, st) IN IF ra.p # <<>> THEN ra ELSE
          IF ra.v.dyn = e.ty THEN R(ra.v.v, ra.st) ELSE RP(MsgAssert(ra.v.dyn, e.ty), ra.st)
@@ -155,20 +216,20 @@ ExecStmt(s, env, st) ==
             LET ri == Eval(lv.i, env, st) IN IF ri.p # <<>> THEN SPanic(ri.p, env, ri.st) ELSE
             LET r == Eval(s.e, env, ri.st) IN IF r.p # <<>> THEN SPanic(r.p, env, r.st) ELSE
             LET cur == r.st.heap[env[lv.v]]  n == IF lv.of = "slice" THEN cur.len ELSE Len(cur) IN
-            IF ri.v < 0 \/ ri.v >= n THEN SPanic(MsgIndex(ri.v, n), env, r.st)
+            IF ri.v < 0 \/ ri.v >= n THEN SRaise(MsgIndex(ri.v, n), env, r.st)
             ELSE IF lv.of = "slice" THEN SNext(env, [r.st EXCEPT !.heap[cur.a][cur.off + ri.v + 1] = r.v])
             ELSE SNext(env, [r.st EXCEPT !.heap[env[lv.v]][ri.v + 1] = r.v])
          ELSE IF lv.l = "map" THEN
             LET rk == Eval(lv.k, env, st) IN IF rk.p # <<>> THEN SPanic(rk.p, env, rk.st) ELSE
             LET r == Eval(s.e, env, rk.st) IN IF r.p # <<>> THEN SPanic(r.p, env, r.st) ELSE
             LET m == r.st.heap[env[lv.v]] IN
-            IF m = 0 THEN SPanic(MgtNilMap, env, r.st)
+            IF m = 0 THEN SRaise(MgtNilMap, env, r.st)
             ELSE SNext(env, [r.st EXCEPT !.heap[m] = MgMapPut(@, rk.v, r.v)])
          ELSE \* "field"
             LET r == Eval(s.e, env, st) IN IF r.p # <<>> THEN SPanic(r.p, env, r.st) ELSE
             IF lv.of = "st" THEN SNext(env, [r.st EXCEPT !.heap[env[lv.v]][lv.f] = r.v])
             ELSE LET p == r.st.heap[env[lv.v]] IN
-                 IF p = 0 THEN SPanic(MgtNilDeref, env, r.st) ELSE SNext(env, [r.st EXCEPT !.heap[p][lv.f] = r.v])
+                 IF p = 0 THEN SRaise(MgtNilDeref, env, r.st) ELSE SNext(env, [r.st EXCEPT !.heap[p][lv.f] = r.v])
     [] s.s = "print" ->
          LET r == EvalList([j \in 1..Len(s.es) |-> s.es[j].e], 1, env, st, <<>>) IN
          IF r.p # <<>> THEN SPanic(r.p, env, r.st) ELSE
@@ -199,6 +260,12 @@ ExecStmt(s, env, st) ==
     [] s.s = "expr" -> LET r == Eval(s.e, env, st) IN IF r.p # <<>> THEN SPanic(r.p, env, r.st) ELSE SNext(env, r.st)
     [] s.s = "ret" -> LET r == Eval(s.e, env, st) IN IF r.p # <<>> THEN SPanic(r.p, env, r.st)
                       ELSE [sig |-> MgSig("return", "", r.v, <<>>), env |-> env, st |-> r.st]
+    [] s.s = "defer" ->                                  \* defer f(): the function value is evaluated now, called at the frame's end
+         LET r == Eval(s.f, env, st) IN IF r.p # <<>> THEN SPanic(r.p, env, r.st)
+         ELSE SNext(env, [r.st EXCEPT !.dfr = Append(@, r.v)])
+    [] s.s = "panic" ->                                  \* panic(n), n an int: the message is the number
+         LET r == Eval(s.e, env, st) IN IF r.p # <<>> THEN SPanic(r.p, env, r.st)
+         ELSE [sig |-> MgSig("panic", "", 0, MgDec(r.v)), env |-> env, st |-> [r.st EXCEPT !.lp = PayInt(r.v)]]
 
 \* one test-and-iteration of a for statement; env holds this iteration's copy of the loop variable
 ForIter(s, env, st) ==
@@ -236,9 +303,13 @@ SwitchRun(s, j, env, st) ==
   ELSE r
 
 \* ---------------------------------------------------------------------------- a whole program
+\* main is a frame too: its deferred calls run when it returns or panics
 Run(prog) ==
-  LET r == ExecBlock(prog.body, 1, [j \in 1..prog.nv |-> 0], [heap |-> <<>>, out |-> <<>>]) IN
+  LET fenv == [j \in 1..prog.nv |-> 0]
+      r == CallFrame([body |-> prog.body, env |-> fenv], 0, <<>>,
+                     [heap |-> <<>>, out |-> <<>>, dfr |-> <<>>, fr |-> 0, pst |-> <<>>, lp |-> PayNone,
+                      funcs |-> prog.funcs, fenv |-> fenv]) IN
   [out |-> r.st.out,
-   outcome |-> IF r.sig.k = "panic" THEN "panic" ELSE IF r.sig.k = "next" THEN "ok" ELSE "invalid",
-   msg |-> r.sig.m]
+   outcome |-> IF r.stray THEN "invalid" ELSE IF r.p THEN "panic" ELSE "ok",
+   msg |-> r.m]
 =============================================================================
